@@ -53,6 +53,24 @@ def write_gvf(path, rows, source='gSNP'):
             f.write('\t'.join([gene_id, str(pos1), vid, ref, alt, '.', '.',
                                'TRANSCRIPT_ID=%s;GENOMIC_POSITION=chr:%d;GENE_SYMBOL=%s' % (tx_id, pos1, gname)]) + '\n')
 
+def write_fusion_gvf(path, fusions):
+    """fusion rows are written by the repo's own GVF writer (seqvar.io.write / VariantRecord.to_string)"""
+    from moPepGen import seqvar
+    from moPepGen.SeqFeature import FeatureLocation
+    recs = []
+    for f in fusions:
+        r = f['row']
+        attrs = {'TRANSCRIPT_ID': r['tx_id'], 'GENE_SYMBOL': r['gene_symbol'],
+                 'GENOMIC_POSITION': 'chr:%d-%d' % (r['start0'], r['start0']),
+                 'ACCEPTER_GENE_ID': r['acc_gene_id'], 'ACCEPTER_TRANSCRIPT_ID': r['acc_tx_id'],
+                 'ACCEPTER_SYMBOL': r['acc_gene_symbol'], 'ACCEPTER_POSITION': r['acc_pos0'],
+                 'ACCEPTER_GENOMIC_POSITION': 'chr:%d-%d' % (r['acc_pos0'], r['acc_pos0'])}
+        recs.append(seqvar.VariantRecord(
+            location=FeatureLocation(seqname=r['gene_id'], start=r['start0'], end=r['start0'] + 1),
+            ref=r['ref'], alt='<FUSION>', _type='Fusion', _id=r['id'], attrs=attrs))
+    meta = seqvar.GVFMetadata(parser='parseSTARFusion', source='Fusion', chrom='Gene ID')
+    seqvar.io.write(recs, path, meta)
+
 def read_fasta(path):
     out = []
     head = None
@@ -142,6 +160,10 @@ def handle(case):
         for i, rows in enumerate(files):
             gp = os.path.join(d, 'v%d.gvf' % i)
             write_gvf(gp, rows)
+            gvfs.append(gp)
+        if case.get('fusions'):
+            gp = os.path.join(d, 'fusion.gvf')
+            write_fusion_gvf(gp, case['fusions'])
             gvfs.append(gp)
         res = []
         for i, r in enumerate(case['runs']):
